@@ -21,7 +21,8 @@ class C13Pairs(Scenario):
             cfg = structs.SketchSubject.gen_cfg(rng)
         else:
             cfg = structs.BloomSubject.gen_cfg(rng, small=True)
-        rel = rng.weighted([(5, "compatible"), (2, "diff_est"), (2, "diff_rate"), (2, "diff_hash"), (1, "identical")])
+        rel = rng.weighted([(5, "compatible"), (2, "diff_est"), (2, "diff_rate"), (2, "diff_hash"), (1, "identical"),
+                            (2, "near")])
         cfg.update({"kind": kind, "rel": rel, "a_disk": kind == "bloom" and rng.chance(1, 3),
                     "b_disk": kind == "bloom" and rng.chance(1, 3), "steps": rng.between(2, self.max_steps),
                     "universe": rng.choice((4, 8, 16)), "hseed2": rng.below(1 << 16),
@@ -40,8 +41,10 @@ class C13Pairs(Scenario):
             if cfg["rel"] == "identical":
                 st["to"] = "ab"
             return st
-        if r < 88:
-            return {"op": "ops", "order": rng.choice(("ab", "ba"))}
+        if r < 84:
+            return {"op": "ops", "order": rng.choice(("ab", "ba")), "poke": rng.below(cfg["universe"])}
+        if r < 90:
+            return {"op": "derive", "side": rng.choice(("a", "b")), "which": rng.choice(("intersection", "union", "clear"))}
         return {"op": "foreign", "what": rng.choice(FOREIGN), "recv": rng.choice(("a", "b"))}
 
     # ------------------------------------------------------------------ construction
@@ -58,7 +61,7 @@ class C13Pairs(Scenario):
                 sz["depth"] += 1
             elif rel == "diff_hash":
                 hf = self.hf2
-            return (sz, hf), rel in ("compatible", "identical")
+            return (sz, hf), rel in ("compatible", "identical", "near")  # 'near' only exists for Bloom sizings
         est, rate, hf = cfg["est"], cfg["rate"], self.env.hf
         if rel == "diff_est":
             est = est + 1 + est // 2
@@ -66,6 +69,16 @@ class C13Pairs(Scenario):
             rate = rate / 3.0
         elif rel == "diff_hash":
             hf = self.hf2
+        elif rel == "near":
+            # a sizing whose bit count differs but rounds up to the same number of bytes (and the same k)
+            m1, k1 = common.geometry(cfg["est"], cfg["rate"])
+            for i in range(1, 60):
+                r2 = rate * (1.0 + 0.004 * i)
+                g = common.geometry(est, r2) if r2 < 1 else None
+                if g and g[0] != m1 and g[1] == k1 and (g[0] + 7) // 8 == (m1 + 7) // 8:
+                    rate = r2
+                    self.ctx.probe("near_sizing_pair")
+                    break
         g1 = common.geometry(cfg["est"], cfg["rate"])
         g2 = common.geometry(est, rate)
         same = g1 == g2 and rel != "diff_hash"
@@ -126,7 +139,8 @@ class C13Pairs(Scenario):
     # ------------------------------------------------------------------ observation helpers
     def snapshot(self, o):
         """Everything observable of an operand: exported bytes, counter and (on-disk) the backing file."""
-        snap = [bytes(o), o.elements_added]
+        # cells rather than bytes(): a derived filter whose bits are all set carries -1 and cannot be packed
+        snap = [self.cells(o) if self.cfg["kind"] != "cms" else bytes(o), o.elements_added]
         for d, path in self.disk:
             if d is o:
                 snap.append(common.read_fresh(path))
@@ -159,13 +173,38 @@ class C13Pairs(Scenario):
                 self.out[side][step["k"]] = 1
             return {"r": "ok"}
         if op == "ops":
-            return self.pair_ops(step["order"])
+            return self.pair_ops(step["order"], step.get("poke"))
+        if op == "derive":
+            return self.derive(step)
         if op == "foreign":
             return self.foreign(step)
         raise HarnessError(op)
 
     def finish(self):
-        self.pair_ops("ab")
+        self.pair_ops("ab", 0)
+
+    def derive(self, step):
+        """Replace an in-memory Bloom operand by a derived filter (result of a set operation / cleared): such
+        filters carry an ESTIMATED element count, possibly 0 with bits set - a reachable state."""
+        kind = self.cfg["kind"]
+        if kind == "cms" or not self.compatible:
+            return "skip"
+        x, y = (self.a, self.b) if step["side"] == "a" else (self.b, self.a)
+        if getattr(x, "is_on_disk", False):
+            return "skip"
+        if step["which"] == "clear":
+            x.clear()
+            self.out[step["side"]] = {}
+            return {"r": "ok"}
+        res = getattr(x, step["which"])(y)
+        if res is None:
+            return "skip"
+        if step["side"] == "a":
+            self.a = res
+        else:
+            self.b = res
+        self.ctx.fault("derived_operand")
+        return {"r": "ok", "count": res.elements_added}
 
     def foreign_obj(self, what):
         import probables
@@ -210,7 +249,7 @@ class C13Pairs(Scenario):
         self.ctx.fault("foreign_operand")
         return {"r": "ok"}
 
-    def pair_ops(self, order):
+    def pair_ops(self, order, poke=None):
         from probables.exceptions import CountMinSketchError
 
         ctx = self.ctx
@@ -229,10 +268,21 @@ class C13Pairs(Scenario):
             if joined != self.compatible:
                 raise Violation("join_guard_wrong", f"join of {'compatible' if self.compatible else 'mismatched'} sketches "
                                                     f"({self.cfg['rel']}) {'succeeded' if joined else 'was refused'}", sig)
-            if not joined and (bytes(recv) != sx[0]):
+            if not joined and (bytes(recv) != sx[0]):  # sketches always export
                 raise Violation("operand_modified", "a refused join modified the receiver", sig)
             if self.snapshot(y) != sy or self.snapshot(x) != sx:
                 raise Violation("operand_modified", "join modified an operand other than its receiver", sig)
+            if joined and poke is not None:
+                # the receiver goes on living: its later updates must not show through in the other operand
+                recv.add(seams.key_of(poke), 3)
+                recv.remove(seams.key_of(poke + 1), 1)
+                if self.snapshot(y) != sy:
+                    raise Violation("operand_modified", "an update of the join receiver after the join changed the other "
+                                                        "operand (shared state)", sig)
+                recv.clear()
+                if self.snapshot(y) != sy:
+                    raise Violation("operand_modified", "clear() of the join receiver after the join changed the other "
+                                                        "operand (shared state)", sig)
             ctx.fault("incompatible_pair" if not self.compatible else "compatible_pair")
             ctx.nontrivial = True
             return {"r": "ok", "joined": joined}
@@ -275,6 +325,15 @@ class C13Pairs(Scenario):
         want_j = 1.0 if n_or == 0 else n_and / n_or
         if jac != want_j or jac_r != want_j:
             raise Violation("jaccard_wrong", f"jaccard_index={jac!r} reversed={jac_r!r}, popcount ratio {n_and}/{n_or}", sig)
+        if poke is not None:
+            # results are new filters: updating them must not show through in the operands
+            for res in (inter, uni):
+                if kind == "bloom":
+                    res.add(seams.key_of(poke))
+                else:
+                    res.add(seams.key_of(poke), 2)
+            if self.snapshot(x) != sx or self.snapshot(y) != sy:
+                raise Violation("operand_modified", "updating the result of union/intersection changed an operand", sig)
         if not 0.0 <= jac <= 1.0:
             raise Violation("jaccard_wrong", f"jaccard_index={jac!r} outside [0,1]", sig)
         if cx == cy and jac != 1.0:
